@@ -45,6 +45,11 @@ func (l *vlistener) Accept() (net.Conn, error) {
 			vc := &vconn{final: io.EOF, hold: make(chan struct{})}
 			l.conns = append(l.conns, vc)
 			return vc, nil
+		case 4:
+			// a silent peer: it neither sends nor reads
+			vc := &vconn{final: io.EOF, hold: make(chan struct{}), wblock: make(chan struct{})}
+			l.conns = append(l.conns, vc)
+			return vc, nil
 		default:
 			vc := &vconn{final: io.EOF}
 			l.conns = append(l.conns, vc)
@@ -100,7 +105,7 @@ func verifC20serve(K, preempt, forks int) {
 	firstPerm := -1
 	ntemp := 0
 	for i := 0; i < n; i++ {
-		k := verifChoice(4)
+		k := verifChoice(5)
 		l.script = append(l.script, k)
 		if k == 1 && firstPerm < 0 {
 			firstPerm = i
@@ -137,6 +142,9 @@ func verifC20serve(K, preempt, forks int) {
 					go func() {
 						for _, c := range l.conns {
 							c.release()
+							if c.wblock != nil {
+								c.Close() // the silent peer finally goes away
+							}
 						}
 					}()
 				}
@@ -192,6 +200,9 @@ func verifC20serve(K, preempt, forks int) {
 			// connections were left alone by Shutdown: release them now
 			for _, c := range l.conns {
 				c.release()
+				if c.wblock != nil {
+					c.Close()
+				}
 			}
 			verifSettle()
 		}
